@@ -900,6 +900,30 @@ def check_c06(tier, seed):
             if np.shares_memory(tp.grad, tq.grad) and not np.shares_memory(tp.data, tq.data):
                 b.fail("C06.bounded.noalias", dict(program=name, pair=[p, q]), "gradients of tensors with distinct memory share memory")
         b.case(dict(program=name, contract="noalias"))
+    # successive backward passes on the base itself, seeded with DIFFERENT windows of one buffer (the seed is kept as it is when dtype, shape and
+    # layout match -- known finding F6 -- so the base's gradient does not own its memory): a side view's gradient follows the base's CURRENT one
+    side_views = [("[1:3]", lambda t: t[1:3]), ("[::-1]", lambda t: t[::-1]), ("reshape", lambda t: t.reshape(2, 2)), ("[1:][:2]", lambda t: t[1:][:2]), ("[...]", lambda t: t[...])]
+    for vn, vf in side_views:
+        for buf in ("rows of a 2-d buffer", "halves of a 1-d buffer", "owning arrays"):
+            bt = mg.tensor(rng.uniform(1, 2, size=(4,)))
+            v = vf(bt)
+            G = np.arange(1.0, 9.0)
+            seeds = [G.reshape(2, 4)[0], G.reshape(2, 4)[1]] if buf.startswith("rows") else ([G[:4], G[4:]] if buf.startswith("halves") else [G[:4].copy(), G[4:].copy()])
+            for k_, g in enumerate(seeds):
+                desc = dict(family="base seeded twice from one buffer", view=vn, seeds=buf, backward_pass=k_ + 1)
+                b.count("view gradient follows the base's current gradient")
+                try:
+                    bt.backward(g)
+                    vg = v.grad
+                except Exception as e:
+                    b.fail("C06.bounded.raises", desc, f"{type(e).__name__}: {e}")
+                    break
+                exp = vf(bt.grad)
+                if vg is None or vg.shape != exp.shape or not np.array_equal(vg, exp):
+                    b.fail("C06.bounded.view_grad_value", desc, f"view.grad = {None if vg is None else vg.tolist()}, the view of base.grad is {exp.tolist()}")
+                elif not np.shares_memory(vg, bt.grad):
+                    b.fail("C06.bounded.view_grad_not_shared", desc, "view.grad does not share memory with base.grad")
+                b.case(desc)
     return b
 
 
